@@ -606,6 +606,21 @@ def main(run, replay=None):
         if "res_vs_lit" in orc:
             stats["oracle_checked"] += 1
         kind = failure_kind(r)
+        if not kind and c_rl == 1 and not g_opaque({"k": "op", "name": c["op"], "a": r["ins"]}):
+            # no opaque term: the checker's normal forms differ, i.e. the two meanings are different rational
+            # functions of the jet variables; the low-degree polynomials of the oracle may hide it: retry
+            for extra in (1, 2):
+                c2 = dict(c, seed=c.get("seed", 0) + 7919 * extra, deg=4)
+                rr, _ = run.impl("C02_impl", {"cases": [c2]})
+                if rr and failure_kind(rr["results"][0]):
+                    r = results[ci] = rr["results"][0]
+                    cases[ci] = c = c2
+                    kind = failure_kind(r)
+                    break
+            if not kind:
+                stats["normal_forms_differ_oracle_agrees"] = stats.get("normal_forms_differ_oracle_agrees", 0) + 1
+                corr.append((ci, "the verified checker finds different normal forms for the meaning of the result and of the "
+                                 "literal (no opaque term), but the numeric oracle found no failing instantiation"))
         if kind:
             stats["oracle_failures"] += 1
             failing.append((ci, kind, "the constructed expression does not denote the same field as the literal application"
